@@ -14,7 +14,7 @@ exec(open('/verif/tools/claims.py').read())
 
 m = {
  "version": 1,
- "setup_cmd": "cd /verif/mc && GOFLAGS=-mod=mod GOPROXY=off go build -o /verif/.work/bin/check ./cmd/check && GOFLAGS=-mod=mod GOPROXY=off go vet ./ct ./model >/dev/null 2>&1; true",
+ "setup_cmd": "/verif/setup.sh",
  "hooks": {
   "guard": "verif-overlay",
   "enable": "no source hooks are committed to /repo; checks that need seams (virtual clock, scheduler, map order, GC points) generate instrumented copies of the current /repo sources under /verif/.work and build them with `go build -overlay`",
